@@ -308,4 +308,81 @@ theorem rep_lookup_member (m : MRS) (reps : Reps) (h : m.representatives = .ok r
     ∀ r ∈ rs, r ∈ m.preds ∧ r.2.label = l :=
   rep_member m reps h l rs (dlookup_mem hl)
 
+/-! ### `from_dmrs` emits one predication per node, in order -/
+
+/-- the surface part a node and its predication share -/
+def nodeFace (n : Node) : String × Option String × Option (Int × Int) × Option String × Option String :=
+  (n.predicate, n.carg, n.lnk, n.surface, n.base)
+def epFace (e : EP) : String × Option String × Option (Int × Int) × Option String × Option String :=
+  (e.predicate, e.carg, e.lnk, e.surface, e.base)
+
+theorem buildRel_rels (d : DMRS) (sc idToIv ns scs) (st st' : BuildSt) (n : Node)
+    (h : buildRel d sc idToIv ns scs st n = .ok st') :
+    st'.rels.map epFace = st.rels.map epFace ++ [nodeFace n] := by
+  unfold buildRel at h
+  split at h
+  · rename_i label iv _ _
+    split at h
+    · simp at h
+    · split at h
+      · simp at h
+      · simp only [Except.ok.injEq] at h
+        subst h
+        simp [epFace, nodeFace]
+  · simp at h
+
+theorem foldlM_buildRel_rels (d : DMRS) (sc idToIv ns scs) :
+    ∀ (nodes : List Node) (st st' : BuildSt),
+      nodes.foldlM (buildRel d sc idToIv ns scs) st = .ok st' →
+      st'.rels.map epFace = st.rels.map epFace ++ nodes.map nodeFace := by
+  intro nodes
+  induction nodes with
+  | nil =>
+    intro st st' h
+    simp only [List.foldlM_nil] at h
+    cases h
+    simp
+  | cons n ns' ih =>
+    intro st st' h
+    rw [List.foldlM_cons] at h
+    cases h1 : buildRel d sc idToIv ns scs st n with
+    | error e => rw [h1] at h; cases h
+    | ok st1 =>
+      rw [h1] at h
+      have := ih st1 st' h
+      rw [this, buildRel_rels d sc idToIv ns scs st st1 n h1]
+      simp
+
+theorem fromDmrs_rels_aux (chosen : List Var) (d : DMRS) (m2 : MRS) (h : fromDmrs chosen d = .ok m2) :
+    m2.rels.map epFace = d.nodes.map nodeFace ∧ m2.icons = [] := by
+  unfold fromDmrs at h
+  simp only at h
+  repeat' split at h
+  all_goals first
+    | (cases h; done)
+    | (simp only [Except.ok.injEq] at h
+       subst h
+       have := foldlM_buildRel_rels _ _ _ _ _ _ _ _ (by assumption)
+       simpa using this)
+
+theorem nodes_faces (m : MRS) (d : DMRS) 
+    (hlen : d.nodes.length = m.rels.length)
+    (hsh : ∀ (i : Nat) (e : EP), m.rels[i]? = some e → ∃ n, d.nodes[i]? = some n ∧
+      n.predicate = e.predicate ∧ n.carg = e.carg ∧ n.lnk = e.lnk ∧
+      n.surface = e.surface ∧ n.base = e.base) :
+    d.nodes.map nodeFace = m.rels.map epFace := by
+  apply List.ext_getElem?
+  intro i
+  rw [List.getElem?_map, List.getElem?_map]
+  cases he : m.rels[i]? with
+  | none =>
+    have : d.nodes[i]? = none := by
+      rw [List.getElem?_eq_none_iff] at he ⊢
+      omega
+    rw [this]; rfl
+  | some e =>
+    obtain ⟨n, hn, h1, h2, h3, h4, h5⟩ := hsh i e he
+    rw [hn]
+    simp [nodeFace, epFace, h1, h2, h3, h4, h5]
+
 end Verif.C04
